@@ -29,6 +29,10 @@ META = {
     "functions": ["Field._get_default_gfa_tag_datatype", "string/char/float/json/byte_array/numeric_array encode+decode", "FieldData.set/set_datatype", "Writer.field_to_s"],
     "bounds": "catalogue of 38 Python values (strings incl. tab/newline/non-printable/empty, characters, finite and non-finite floats, nested JSON lists/dicts, JSON containing tabs/newlines, int and float lists, empty list, ByteArray of 1-2 bytes, NumericArray, mixed list) x vlevel 0..3 x {new tag with default datatype, tag with declared datatype}",
     "timeout": {"quick": 300, "thorough": 900}, "parts": {"quick": 8, "thorough": 8}},
+  "h_float_text": {"kind": "L",
+    "functions": ["gfapy.field.float.decode/unsafe_decode/validate_encoded/validate_decoded/encode", "Line.__init__/get/field_to_s", "Writer"],
+    "bounds": "f tags given as text '<m>e<x>' with mantissa from {1, -1, 1.5, 9.9} and exponent from {0, 37, 38, 39, 307, 308, 309, 400, 999, -400}, on an S line read at vlevel 0..3: either the value is read, written as a grammatical f field and read back equal, or the line/field access raises a gfapy error; a non-finite value is never stored or written",
+    "timeout": {"quick": 200, "thorough": 400}, "parts": {"quick": 4, "thorough": 4}},
   "h_string_tag": {"kind": "L",
     "functions": ["string.encode/decode/validate_encoded", "char.encode/decode", "FieldData.set", "Writer.field_to_s", "Line.__init__"],
     "bounds": "every string of length <= 3 (no newline: E2 decides newline) assigned to a Z tag and, length 1, to an A tag, vlevel 1..3",
@@ -250,3 +254,38 @@ def h_string_tag(s: str, kind: bool, vl: int) -> bool:
   if w != "xx:" + dt + ":" + s: return False
   back = gfapy.Line(str(line), vlevel=level)
   return back.get("xx") == s and back.get_datatype("xx") == dt
+
+
+FMANT = ["1", "-1", "1.5", "9.9"]
+FEXP = ["0", "37", "38", "39", "307", "308", "309", "400", "999", "-400"]
+
+def h_float_text(mi: int, xi: int, vl: int) -> bool:
+  """
+  pre: 0 <= mi < 4 and 0 <= xi < 10 and 0 <= vl <= 3
+  pre: xi % NPART == PART
+  post: _ == True
+  """
+  vp.enter("ft")
+  text = "S\ta\t*\txx:f:" + FMANT[vp.concretize(mi, 0, 3)] + "e" + FEXP[vp.concretize(xi, 0, 9)]
+  level = vp.concretize(vl, 0, 3)
+  vp.reached("ft", text, level)
+  try:
+    line = gfapy.Line(text, vlevel=level)
+    whole = vp.plain(str(line))              # written before the field is asked for
+  except gfapy.Error:
+    return True
+  with NoTracing():
+    f = whole.split("\t")
+    if len(f) != 4 or not re.fullmatch(r"xx:f:(.+)", f[3]) or not G.accepts("f", f[3][5:]): return False
+  try:
+    v = line.get("xx")
+    w = line.field_to_s("xx", True)
+  except gfapy.Error:
+    return True
+  with NoTracing():
+    import math
+    if not isinstance(v, float) or not math.isfinite(v): return False
+    m = re.fullmatch(r"xx:f:(.+)", w)
+    if not m or not G.accepts("f", m.group(1)): return False
+    back = gfapy.Line("S\ta\t*\t" + w, vlevel=level)
+    return back.get("xx") == v
